@@ -176,21 +176,46 @@ class World:
         return getattr(m, 'parents', ()) if m is not None else ()
 
     def loop_spec(self, I, ordinal, st):
+        """the loop contract of this loop.  Contracts are written for a loop text: (1) the contract whose header is the text of this loop, wherever the loop now
+        stands (loops may be reordered); (2) else the contract at this position, when the loop keeps its target and the loop that contract was written for is not
+        elsewhere in the function: the loop rule is then applied to the collection the code really iterates over, so the invariant / postcondition is re-proved (or
+        refuted) for it; (3) anything else (renamed target, changed while condition, a contract that belongs to another loop) is undecided."""
         c = self.current
-        if c is None:
-            return None
-        spec = c.loops.get(ordinal)
-        if spec is None:
+        if c is None or not c.loops:
             return None
         hdr = _norm_header(st)
-        if spec.header != hdr:
-            # a for-loop whose TARGET is unchanged but which iterates over another expression keeps its contract: the loop rule is applied to the collection the code
-            # really iterates over, so the invariant / postcondition is re-proved (or refuted) for it.  Anything else (renamed target, while condition) is undecided.
-            same_target = isinstance(st, ast.For) and spec.header.startswith('for ' + ast.unparse(st.target) + ' in ')
-            if not same_target:
-                raise Undecided(f'loop #{ordinal} header changed: {hdr!r} (contract has {spec.header!r})')
-            I.dropped.append(f'loop #{ordinal} iterates over {ast.unparse(st.iter)!r} (contract written for {spec.header!r})')
+        spec = c.loops.get(ordinal)
+        if spec is not None and spec.header == hdr:
+            return spec
+        exact = [s for s in c.loops.values() if s.header == hdr]
+        if len(exact) == 1:
+            I.dropped.append(f'loop {hdr!r} is loop #{ordinal} of the function now (its contract was written for another position)')
+            return exact[0]
+        if exact:
+            raise Undecided(f'several loop contracts for {hdr!r} and the loops were reordered')
+        if spec is None:
+            return None
+        try:
+            fn = self.fn_ast(c)
+            present = {_norm_header(n) for n in ast.walk(fn) if isinstance(n, (ast.For, ast.While))}
+        except Exception:      # noqa
+            present = set()
+        if spec.header in present:
+            raise Undecided(f'loop #{ordinal} is {hdr!r}; the contract at this position belongs to {spec.header!r}, which is elsewhere in the function')
+        same_target = isinstance(st, ast.For) and spec.header.startswith('for ' + ast.unparse(st.target) + ' in ')
+        if not same_target:
+            raise Undecided(f'loop #{ordinal} header changed: {hdr!r} (contract has {spec.header!r})')
+        I.dropped.append(f'loop #{ordinal} iterates over {ast.unparse(st.iter)!r} (contract written for {spec.header!r})')
         return spec
+
+    def spec_ordinal(self, spec, ordinal):
+        """the position the contract was written for (labels of the obligations and hooks are keyed by it)"""
+        c = self.current
+        if c is not None:
+            for k, s in c.loops.items():
+                if s is spec:
+                    return k
+        return ordinal
 
     def unpack_hook(self, I, v, n):
         return None
